@@ -20,7 +20,7 @@ RULE = ('grid enumerated every run: sending = role x target {origin, stream, bot
         'random cases add ALTSVC frames at arbitrary points followed by the differential continuation on servers; '
         'non-trivial = table verdict compared; distinct = grid cell')
 MINIMA = {'send_cases_judged': 100, 'receive_cases_judged': 200, 'events_checked': 40, 'server_differential_checked': 300,
-          'ignored_frames_checked': 100}
+          'ignored_frames_checked': 100, 'repeated_advertisements_checked': 40, 'advertisement_after_response_checked': 20}
 EXHAUSTIVE = {}
 
 SEND_STATES = ['idle-conn', 'idle', 'open', 'after-1xx', 'after-final', 'hc_remote', 'hc_local', 'closed_es', 'closed_rst', 'reserved']
@@ -228,6 +228,27 @@ def recv_case(cell, rep, rng):
     if evs[0].origin != expect_origin or evs[0].field_value != field:
         rep.violation('C24:altsvc-event-origin-wrong:%s' % prog, 'event origin %r field %r, expected origin %r' %
                       (evs[0].origin, evs[0].field_value, expect_origin), w)
+        return
+    # receiving the advertisement changes nothing: the same frame again is reported again, the stream then takes its response
+    # as usual, and once response headers have arrived a further advertisement on the stream is ignored
+    res2 = h.send(wire.build_altsvc(sid, origin, field))
+    rep.count('repeated_advertisements_checked')
+    ev2 = [e for e in res2.events if type(e).__name__ == 'AlternativeServiceAvailable']
+    if res2.exc is not None or len(ev2) != 1 or ev2[0].origin != expect_origin:
+        rep.violation('C24:second-advertisement-treated-differently:%s' % prog,
+                      'the same ALTSVC frame a second time: exc %r events %s' % (res2.exc, [core.ev_brief(e) for e in res2.events]), w)
+        return
+    if sid != 0 and prog in ('pushed', 'open', 'open-after-data', 'after-trailers'):
+        res3 = h.peer_headers(sid, RESP)
+        if res3.exc is not None or [type(e).__name__ for e in res3.events][:1] != ['ResponseReceived']:
+            rep.violation('C24:stream-disturbed-by-advertisement:%s' % prog,
+                          'response HEADERS after the advertisements: exc %r events %s' % (res3.exc, [type(e).__name__ for e in res3.events]), w)
+            return
+        res4 = h.send(wire.build_altsvc(sid, origin, field))
+        rep.count('advertisement_after_response_checked')
+        if res4.exc is not None or res4.events:
+            rep.violation('C24:altsvc-not-ignored:stream-progress:after-response-following-advertisements',
+                          'ALTSVC after response headers: exc %r events %s' % (res4.exc, [core.ev_brief(e) for e in res4.events]), w)
 
 
 def server_differential(rng, rep):
